@@ -201,6 +201,11 @@ impl RunCtx {
         }
     }
 
+    /// Running under the Miri interpreter: components only, tiny workloads.
+    pub fn miri(&self) -> bool {
+        self.profile == "miri"
+    }
+
     pub fn quick(&self) -> bool {
         self.tier == Tier::Quick
     }
